@@ -38,6 +38,8 @@ opkinds! {
     ItLast = "it_last",               // [slot, disp]
     ItDebug = "it_debug",             // [slot]
     ItCollect = "it_collect",         // [slot, mode, len_idx]
+    ItCloneFrom = "it_clone_from",    // [dst_slot, src_slot]
+    CloneFromArr = "clone_from",      // [dst_slot, src_slot]
     // functional
     Map = "map",                      // [slot, beh, form(0 owned,1 &,2 &mut,3 boxed)]
     Zip = "zip",                      // [slot_a, slot_b, beh, form(0..8 stack lhs*3+rhs, 9 boxed)]
